@@ -200,6 +200,13 @@ def stream(rng, family, length, n=4, positive=False):
         base = stream(rng, rng.choice(["ints", "dyadic8", "ties", "rampup", "sawtooth", "spike"]), L, n)
         sc = F(2) ** (-40 if family == "tiny" else 30)
         xs = [x * sc for x in base]
+    elif family == "level":
+        # a quiet series at a high level (an index near 10^6 moving by hundredths): the spread is 10^-8 ... 10^-9 of the level, so
+        # a RELATIVE threshold (variance <= mean^2 * epsilon, var > sqrt(eps)*n*sxx, ...) fires here and nowhere else
+        # (wave-5 seeds C06e, C16e); a sum of squares minus the square of the sum loses everything (C13e)
+        base = stream(rng, rng.choice(["ints", "dyadic8", "ties", "rampup", "sawtooth", "rampdown"]), L, n)
+        lvl = F(2) ** rng.choice([20, 20, 24, 30]) * rng.choice([1, 1, -1])
+        xs = [lvl + x * F(1, 64) for x in base]
     elif family in ("decimal", "const_decimal", "fav_decimal"):
         # the doubles nearest to short decimals (0.3, 12.34, 100.1, ...): full 53-bit mantissas, so sums of them are inexact
         # in f64 — rounding residue appears even on a CONSTANT window.  (Exact Fractions of those doubles: every mode is fed
